@@ -56,7 +56,7 @@ m = {
  "engines": [{"name": "pqfacts+pqa", "path": "/verif/pqfacts, /verif/pqa, /verif/check", "serves_properties": sorted(props.PROPS),
               "kind_free_text": "custom rustc_private driver serialising the type-checked crate (MIR, resolved callees, instantiated predicates) + Python rule engine (CFG, value provenance, effect inference, typestate exploration)"}],
  "checks": checks,
- "notes": "source_commits are unguarded `fix:` commits repairing genuine defects (see known_findings.json, DESIGN.md 5); there are no hook commits. quick = std configuration (serde for C15); thorough = std+serde+no_std configurations plus compile-fail witnesses and checker self-test. Exit 2 + CHECK-ERROR = no verdict (tree does not build / anchor lost).",
+ "notes": "source_commits are unguarded `fix:` commits repairing genuine defects (see known_findings.json, DESIGN.md 5); there are no hook commits. quick = std + serde + no_std configurations (C15: serde only; the property's anchors exist only there); thorough = the same three configurations plus compile-fail witnesses and checker self-test (seeded changes and benign patches applied to scratch copies, evidence only). Exit 2 + CHECK-ERROR = no verdict (tree does not build / anchor lost).",
  "not_applicable": [],
 }
 json.dump(m, open(os.path.join(HERE, "MANIFEST.json"), "w"), indent=1)
